@@ -57,6 +57,40 @@ def _rel_pid(w, vals, i):
     return "pid bound, object %s, %s" % ("present" if ob else "absent", "shared" if shared else "sole reference")
 
 
+def make_data(call, w, p, content):
+    """the data argument of a store call in one of its documented kinds: path string, Path, open binary file, in-memory
+    stream (the latter two positioned at a solver-chosen offset); returns (argument, caller-owned stream or None)"""
+    kind = call.kind
+    if kind == "path":
+        return p, None
+    if kind == "Path":
+        return (w.module().Path(p) if w.mode != "native" else __import__("pathlib").Path(p)), None
+    if kind in ("stream", "bytesio"):
+        if isinstance(call.offset, (list, tuple)):
+            # the solver picks one of the listed offsets (OFFV is the index)
+            call.off = call.offset[w.ps.choose(OFFV, 0, len(call.offset))]
+        elif call.offset is None:
+            n = len(content)
+            w.ps.constrain(z3.And(OFFV >= 0, OFFV <= n))
+            call.off = w.ps.choose(OFFV, 0, n + 1)
+        else:
+            call.off = call.offset
+    if kind == "stream":
+        if w.mode != "native":
+            f = symfs.FakeFile.__new__(symfs.FakeFile)      # a caller-owned handle: opening it is not an
+            f._fs, f.name, f.mode, f._text = w.F, p, "rb", False   # operation of the call under test
+            f._pending, f._pos, f._writable, f._append, f._closed, f._orphan = [], 0, False, False, False, False
+        else:
+            f = open(p, "rb")
+        f.seek(call.off)
+        return f, f
+    if kind == "bytesio":
+        f = io.BytesIO(content)
+        f.seek(call.off)
+        return f, f
+    raise ValueError(kind)
+
+
 class StoreObj(Call):
     """store_object(pid, data[, additional_algorithm, checksum, checksum_algorithm, size])"""
 
@@ -70,35 +104,7 @@ class StoreObj(Call):
         self.roles = roles or "store_object(pid, content%s)" % tagname
 
     def data(self, w):
-        p = w.src(self.k)
-        if self.kind == "path":
-            return p, None
-        if self.kind == "Path":
-            return (w.module().Path(p) if w.mode != "native" else __import__("pathlib").Path(p)), None
-        if self.kind in ("stream", "bytesio"):
-            if isinstance(self.offset, (list, tuple)):
-                # the solver picks one of the listed offsets (OFFV is the index)
-                self.off = self.offset[w.ps.choose(OFFV, 0, len(self.offset))]
-            elif self.offset is None:
-                n = len(w.contents[self.k])
-                w.ps.constrain(z3.And(OFFV >= 0, OFFV <= n))
-                self.off = w.ps.choose(OFFV, 0, n + 1)
-            else:
-                self.off = self.offset
-        if self.kind == "stream":
-            if w.mode != "native":
-                f = symfs.FakeFile.__new__(symfs.FakeFile)      # a caller-owned handle: opening it is not an
-                f._fs, f.name, f.mode, f._text = w.F, p, "rb", False   # operation of the call under test
-                f._pending, f._pos, f._writable, f._append, f._closed, f._orphan = [], 0, False, False, False, False
-            else:
-                f = open(p, "rb")
-            f.seek(self.off)
-            return f, f
-        if self.kind == "bytesio":
-            f = io.BytesIO(w.contents[self.k])
-            f.seek(self.off)
-            return f, f
-        raise ValueError(self.kind)
+        return make_data(self, w, w.src(self.k), w.contents[self.k])
 
     def run(self, w, s):
         data, stream = self.data(w)
@@ -238,13 +244,15 @@ class DeleteIfInvalid(Call):
 
 
 class StoreMeta(Call):
-    def __init__(self, i, v, f, kind="path"):
-        self.i, self.v, self.f, self.kind = i, v, f, kind
-        self.label = "store_metadata(pid%d, d%d, %r)" % (i, v, f)
-        self.roles = "store_metadata(pid, doc, %s)" % ("default" if f is None else "format")
+    def __init__(self, i, v, f, kind="path", offset=0):
+        self.i, self.v, self.f, self.kind, self.offset = i, v, f, kind, offset
+        self.label = "store_metadata(pid%d, d%d%s, %r)" % (i, v, "" if kind == "path" else "," + kind, f)
+        self.roles = "store_metadata(pid, doc%s, %s)" % ("" if kind == "path" else " as " + kind,
+                                                        "default" if f is None else "format")
 
     def run(self, w, s):
-        return s.store_metadata(w.pids[self.i], w.docsrc(self.v), self.f)
+        data, self.stream = make_data(self, w, w.docsrc(self.v), w.docs[self.v])
+        return s.store_metadata(w.pids[self.i], data, self.f)
 
     def model(self, w, pre):
         cases, post = w.m_store_meta(pre, self.i, self.v, self.f)
@@ -257,6 +265,13 @@ class StoreMeta(Call):
                 exp = w.scratch + exp
             if str(val) != exp:
                 return [("returned-path-wrong", str(val))]
+            st = getattr(self, "stream", None)
+            if st is not None:
+                # like store_object: the caller's stream stays open at the offset it had
+                if st.closed:
+                    return [("caller-stream-closed", self.kind)]
+                if st.tell() != self.off:
+                    return [("caller-stream-offset-moved", self.kind, self.off, st.tell())]
         return []
 
     def relation(self, w, vals):
@@ -544,15 +559,22 @@ def run_step(ps, w, menu, extra_assume=None):
             ps.assume(e)
     pre = w.pre()
     nops0 = w.F.nops if w.F is not None else 0
+    diverged = None
     try:
         val = call.run(w, s)
         res = "ok"
     except symfs.Crash:
         raise
+    except symfs.Diverged as e:
+        res, val, diverged = "DOES-NOT-RETURN", Exception(str(e)), str(e)
+        if w.F is not None:
+            w.F.npoints = 0
     except Exception as e:     # noqa
         res = w.classify(e)
         val = e
     bad = []
+    if diverged:
+        bad.append(("result-class", "DOES-NOT-RETURN", diverged))
     for p in call.after(w, s, res):
         bad.append(("round-trip:" + p[0], p[1:]))
     post = w.post()
@@ -611,7 +633,7 @@ def run_step(ps, w, menu, extra_assume=None):
     else:
         for pth in w.native_escapes():
             bad.append(("path-outside-store-or-not-hash-derived", pth))
-    rec = dict(n=n, call=call.label, roles=call.roles, res=res, bad=bad, nob=nob,
+    rec = dict(n=n, call=call.label, roles=call.roles, res=res, bad=bad, nob=nob, expect_hang=bool(diverged),
                err=(type(val).__name__ + ": " + str(val)[:160]) if isinstance(val, Exception) else None,
                ntrace=len(trace))
     if bad:
